@@ -181,6 +181,50 @@ Print Assumptions C16_refuted_store_during_iteration.
 Print Assumptions C16_refuted_zstore_during_iteration.
 Print Assumptions C16_refuted_move_same_key_during_iteration.
 
+
+(* ---- the ids of keys are stable (proofs in ProofScan3.v) ----
+   The "same id" premise of C16_key_present_throughout_exactly_once_ is discharged from a condition
+   on the interleaved operations: the (id, name) table only grows under every operation that
+   deletes no key row, and the only operation that gives a live name another id is a rename ONTO
+   it (the source row takes the name; refuted below - to a scanner the key jumps to another id). *)
+From Redka Require Import ProofScan3.
+
+Theorem C16_key_table_only_grows : forall now o d,
+  NoDup (map k_id (rkey d)) -> deletes_keys o = false ->
+  exists extra, map idn (rkey (fst (exec_db now o d))) = map idn (rkey d) ++ extra.
+Proof. exact exec_db_names_prefix. Qed.
+
+Theorem C16_key_id_stable : forall now o d n i,
+  Inv d -> safe_for_key n o = true -> live_named_id now d n i ->
+  forall k', In k' (rkey (fst (exec_db now o d))) -> k_key k' = n -> k_id k' = i.
+Proof. exact key_id_stable_strong. Qed.
+
+Theorem C16_key_present_throughout_exactly_once_whatever_else_happens : forall now pat ktype count steps d name kid,
+  Inv d -> ids_ascending d = true ->
+  safe_steps_for_key name steps ->
+  Forall (key_matching now pat ktype name) (run_dbs now steps d) ->
+  key_present now pat ktype name kid d ->
+  snd (key_iter_with now pat ktype count steps d 0) = true ->
+  List.length (filter (fun k => String.eqb (k_key k) name)
+                      (fst (key_iter_with now pat ktype count steps d 0))) = 1%nat.
+Proof. exact C16_key_present_throughout_exactly_once_ids. Qed.
+
+(* a rename onto the iterated name between two pages: the name is live and matching in every state
+   of the run, and is returned twice (or, with the ids the other way round, never) *)
+Theorem C16_refuted_rename_onto_during_iteration :
+  map k_key (fst (key_iter_with 0 "*" 0 1 [None; Some (KRename "a" "n"); None; None] cex_rename_db 0))
+  = ["n"; "n"] /\
+  snd (key_iter_with 0 "*" 0 1 [None; Some (KRename "a" "n"); None; None] cex_rename_db 0) = true /\
+  map (fun D => map idn (rkey D)) (run_dbs 0 [None; Some (KRename "a" "n"); None; None] cex_rename_db)
+  = [[(1, "n"); (2, "a")]; [(1, "n"); (2, "a")]; [(2, "n")]; [(2, "n")]; [(2, "n")]].
+Proof. exact cex_rename_onto_during_iteration. Qed.
+
+Theorem C16_refuted_rename_onto_during_iteration_missed :
+  map k_key (fst (key_iter_with 0 "*" 0 1 [None; Some (KRename "a" "n"); None] cex_keys_db 0))
+  = ["a"] /\
+  snd (key_iter_with 0 "*" 0 1 [None; Some (KRename "a" "n"); None] cex_keys_db 0) = true.
+Proof. exact cex_rename_onto_during_iteration_missed. Qed.
+
 Print Assumptions C16_key_iteration.
 Print Assumptions C16_set_iteration.
 Print Assumptions C16_hash_iteration.
@@ -189,3 +233,8 @@ Print Assumptions C16_end_signal.
 Print Assumptions C16_missing_key_iterates_empty.
 Print Assumptions C16_ascending_initially.
 Print Assumptions C16_ascending_kept_by_append.
+Print Assumptions C16_key_table_only_grows.
+Print Assumptions C16_key_id_stable.
+Print Assumptions C16_key_present_throughout_exactly_once_whatever_else_happens.
+Print Assumptions C16_refuted_rename_onto_during_iteration.
+Print Assumptions C16_refuted_rename_onto_during_iteration_missed.
